@@ -13,7 +13,7 @@ import common
 import reftrees as rt
 from common import coq_str, coq_list, coq_z, enc_str
 
-THEOREMS = ["C17_commit_calls", "C17_commit_exactly", "C17_update_calls", "C17_update_exactly",
+THEOREMS = ["C17_history", "C17_last_registered", "C17_commit_calls", "C17_commit_exactly", "C17_update_calls", "C17_update_exactly",
             "C17_no_error_calls", "C17_error_stops", "C17_get_backend",
             "C17_commit_paths_lead", "C17_update_path_partial", "C17_update_path_refuted", "C17_example"]
 
@@ -26,14 +26,16 @@ GOOD = ["verifa:one", "verifa://h/p?q#f", "verif2b:z", "x-v.c+d:1", "verifa:"]
 BAD = [("nobackend:zz", "UnknownBackendException"), ("verif:a", "UnknownBackendException"),
        ("VERIFA:x", "UnknownBackendException"), ("noscheme", "ValueError"), ("1abc:x", "ValueError"),
        ("ver ifa:x", "ValueError"), (":x", "ValueError"), ("verifa", "ValueError"), ("ver_ifa:x", "ValueError")]
+NCLASSES = 5                      # recording Backend classes 0..4; initially scheme i -> class i
 LOG = []
-_registered = {}
+_classes = []
 
 
 def backends_ready():
+    """(Re-)establish the initial registry: scheme i -> recording class i."""
     from basyx.aas.backend import backends
-    if not _registered:
-        for i, s in enumerate(SCHEMES):
+    if not _classes:
+        for i in range(NCLASSES):
             def mk(i):
                 class Rec(backends.Backend):
                     @classmethod
@@ -44,9 +46,9 @@ def backends_ready():
                     def update_object(cls, updated_object, store_object, relative_path):
                         LOG.append((2, i, store_object, updated_object, list(relative_path)))
                 return Rec
-            _registered[s] = mk(i)
-    for s, c in _registered.items():
-        backends.register_backend(s, c)        # re-register on every use: another test may have replaced it
+            _classes.append(mk(i))
+    for i, s in enumerate(SCHEMES):
+        backends.register_backend(s, _classes[i])
 
 
 def scheme_py(src):
@@ -66,7 +68,20 @@ def run_ops(tree, ops):
     allnodes = rt.walk(tree)
     by_pos = {tuple(p): n for p, n, _ in allnodes}
     obs, fails = [], []
+    current = {s: i for i, s in enumerate(SCHEMES)}      # the oracle's own record: scheme -> class registered LAST
+    # warm-up, not observed: every source URL of the tree is resolved once under the initial registry, so that a
+    # case (and its shrunk replay in a fresh process) does not depend on what earlier cases happened to resolve
+    for _, o in reg.values():
+        if o.source != "":
+            try:
+                backends.get_backend(o.source)
+            except Exception:
+                pass
     for op in ops:
+        if op[0] == "register":
+            backends.register_backend(op[1], _classes[op[2]])
+            current[op[1]] = op[2]
+            continue
         kind, p = op[0], tuple(op[1])
         x = root
         t = tree
@@ -111,7 +126,7 @@ def run_ops(tree, ops):
                 want += [(d, d) for d in desc if src(d)]
             k_want = 2
         got = [(pos_of.get(id(so)), pos_of.get(id(o))) for (_, _, so, o, _) in calls]
-        bad_srcs = [src(s) for s, _ in want if scheme_py(src(s)) not in SCHEMES]
+        bad_srcs = [src(s) for s, _ in want if scheme_py(src(s)) not in current]
         tag = kind if kind == "commit" else f"update-{'recursive' if op[2] else 'single'}"
         if not bad_srcs:
             if err is not None:
@@ -135,8 +150,12 @@ def run_ops(tree, ops):
             if k != k_want:
                 fails.append((f"C17:{tag}:wrong-backend-method", "commit_object/update_object mixed up"))
             s_src = so.source
-            if scheme_py(s_src) is None or SCHEMES.index(scheme_py(s_src)) != b:
-                fails.append((f"C17:{tag}:wrong-backend", f"source {s_src!r} handled by backend {b}"))
+            if scheme_py(s_src) is None or current.get(scheme_py(s_src)) != b:
+                stale = scheme_py(s_src) in current and current[scheme_py(s_src)] != SCHEMES.index(scheme_py(s_src)) \
+                    if scheme_py(s_src) in SCHEMES else False
+                fails.append((f"C17:{tag}:wrong-backend" + ("-after-re-registration" if stale else ""),
+                              f"source {s_src!r} handled by backend class {b}, but class {current.get(scheme_py(s_src))} "
+                              f"is the one registered last for its scheme"))
             # the documented contract of relative_path
             try:
                 cur = so
@@ -165,7 +184,7 @@ def run_ops(tree, ops):
 
 # ------------------------------------------------------------------ generation
 
-def place_sources(rng, tree, mode):
+def place_sources(rng, tree, mode, late=None):
     nodes = [n for _, n, _ in rt.walk(tree)]
     for n in nodes:
         n["src"] = ""
@@ -178,6 +197,8 @@ def place_sources(rng, tree, mode):
     if mode == "bad" and nodes:
         for n in rng.sample(nodes, min(len(nodes), rng.randint(1, 2))):
             n["src"] = rng.choice(BAD)[0]
+    if late and nodes and rng.random() < 0.5:
+        rng.choice(nodes)["src"] = late + ":zz"       # unknown scheme until this case registers it
 
 
 def gen_tree(rng, depth, stats):
@@ -193,7 +214,46 @@ def all_ops(tree):
     return ops
 
 
+def with_registrations(rng, ops, count, late):
+    """Insert 1-3 re-registrations (same schemes, other classes; sometimes a scheme registered for the first time)
+    and repeat earlier operations after each, so that the same source URLs are resolved again."""
+    if not ops or rng.random() < 0.35:
+        return ops
+    ops = list(ops)
+    for _ in range(rng.randint(1, 3)):
+        pos = rng.randint(1, len(ops))
+        scheme = rng.choice(SCHEMES + SCHEMES + [late])
+        reg = ("register", scheme, rng.randrange(NCLASSES))
+        again = rng.sample(ops[:pos], min(pos, rng.randint(1, 4)))
+        again = [o for o in again if o[0] != "register"]
+        ops = ops[:pos] + [reg] + again + ops[pos:]
+        count("op=register" + ("(new scheme)" if scheme == late else ""))
+    return ops
+
+
+def shrink_ops(tree, ops, sig):
+    """shortest failing prefix, then drop single operations while the same signature still fails"""
+    def failing(o):
+        return any(s == sig for s, _ in run_ops(tree, o)[1])
+    cur = list(ops)
+    for k in range(1, len(ops) + 1):
+        if failing(ops[:k]):
+            cur = list(ops[:k])
+            break
+    changed = True
+    while changed and len(cur) > 1:
+        changed = False
+        for i in range(len(cur) - 1):
+            cand = cur[:i] + cur[i + 1:]
+            if failing(cand):
+                cur, changed = cand, True
+                break
+    return cur
+
+
 def coq_op(o):
+    if o[0] == "register":
+        return f"ORegister {coq_str(o[1])} {o[2]}%nat"
     if o[0] == "commit":
         return f"OCommit {rt.coq_path(o[1])}"
     return f"OUpdate {rt.coq_path(o[1])} {'true' if o[2] else 'false'}"
@@ -252,13 +312,17 @@ def run(chk):
             cases.append((copy_tree(t), all_ops(t)))
             n_exh += 1
     chk.cov["exhaustive_source_placements"] = n_exh
-    for _ in range(ncases):
+    for ci in range(ncases):
         t = gen_tree(rng, rng.randint(2, depth), stats)
         mode = rng.choice(["good", "good", "good", "bad", "none"] if rng.random() < .9 else ["bad"])
-        place_sources(rng, t, mode)
+        # a scheme name of this case only: register_backend cannot be undone, so a scheme registered for the first
+        # time must not be one that another case expects to be unknown
+        late = f"late{ci}.{chk.seed}"
+        place_sources(rng, t, mode, late)
         ops = all_ops(t)
         if len(ops) > 45:
             ops = rng.sample(ops, 45)
+        ops = with_registrations(rng, ops, chk.count, late)
         cases.append((t, ops))
         chk.count(f"sources={mode}")
     terms = []
@@ -270,7 +334,7 @@ def run(chk):
         chk.count(f"nodes={'1-5' if nn <= 5 else '6-15' if nn <= 15 else '>15'}")
         chk.count(f"sourced_nodes={'0' if nsrc == 0 else '1-2' if nsrc <= 2 else '3-6' if nsrc <= 6 else '>6'}")
         chk.count(f"height={rt.height(tree)}")
-        for o, ob in zip(ops, obs):
+        for o, ob in zip([o for o in ops if o[0] != "register"], obs):
             chk.count(f"op={o[0]}" + ("" if o[0] == "commit" else f"(recursive={o[2]})"))
             chk.count(f"calls={'0' if len(ob) == 1 else '1' if len(ob) == 2 else '2-3' if len(ob) <= 4 else '>3'}")
             chk.count("result=" + {0: "ok", 3: "ValueError", 7: "UnknownBackendException"}.get(ob[-1][0], "other"))
@@ -279,11 +343,7 @@ def run(chk):
             if sig in seen:
                 continue
             seen.add(sig)
-            small = ops
-            for o in ops:
-                if any(s == sig for s, _ in run_ops(tree, [o])[1]):
-                    small = [o]
-                    break
+            small = shrink_ops(tree, ops, sig)
             chk.fail(sig, msg, {"tree": tree, "ops": small, "how": "tools/c17.py run_ops(tree, ops)"})
         terms.append(coq_case(tree, ops, obs, cls_index))
         if len(chk.samples) < 3 and nsrc >= 2 and nn >= 5:
@@ -311,16 +371,19 @@ def run(chk):
     if bad:
         tree, ops = cases[bad[0]]
         obs, _ = run_ops(tree, ops)
-        b, e = common.run_mismatch_shards("C17s", PRELUDE, [coq_case(tree, [o], [ob], cls_index) for o, ob in zip(ops, obs)],
-                                          "check_case", shard=50)
-        first = (ops[b[0]], obs[b[0]]) if b else None
+        # prefixes ending in a commit/update, each with the observations of that prefix
+        ends = [k + 1 for k, o in enumerate(ops) if o[0] != "register"]
+        b, e = common.run_mismatch_shards("C17s", PRELUDE, [coq_case(tree, ops[:k], obs[:j + 1], cls_index)
+                                                            for j, k in enumerate(ends)], "check_case", shard=50)
+        first = (ops[:ends[b[0]]], obs[b[0]]) if b else None
         model = None
         if first:
-            model = common.coq_eval("C17", PRELUDE, f"(enc_outcome (do_op {REG} {rt.coq_tree(tree, cls_index, True)} ({coq_op(first[0])})), "
-                                                    f"enc_outcome (spec_op {REG} {rt.coq_tree(tree, cls_index, True)} ({coq_op(first[0])})), "
-                                                    f"wf_treeb {rt.coq_tree(tree, cls_index, True)})")
-        chk.tie_broken("correspondence", {"n_disagreements": len(bad), "tree": tree, "op": first and first[0],
-                                          "sdk_observation": first and first[1], "model_and_spec_observation": model})
+            tt = rt.coq_tree(tree, cls_index, True)
+            oo = coq_list(coq_op(o) for o in first[0])
+            model = common.coq_eval("C17", PRELUDE, f"(map enc_outcome (exec {REG} {tt} {oo}), "
+                                                    f"map enc_outcome (spec_exec {REG} [] {tt} {oo}), wf_treeb {tt})")
+        chk.tie_broken("correspondence", {"n_disagreements": len(bad), "tree": tree, "ops_up_to_first_disagreement": first and first[0],
+                                          "sdk_observation_of_last_op": first and first[1], "model_and_spec_traces": model})
     if bad2:
         chk.tie_broken("correspondence-scheme", {"n": len(bad2), "first": sch_terms[bad2[0]]})
     return finish(chk)
@@ -342,7 +405,10 @@ def finish(chk):
                            "AnnotatedRelationshipElement and 9 leaf classes; sources placed at random densities (3 registered "
                            "schemes incl. one with a digit, 5 good URIs; 9 bad URIs: unknown scheme / no scheme) and, on small "
                            "trees, all 2^n placements; every node as target of commit(), update(recursive=True), "
-                           "update(recursive=False) (sampled to 45 ops on big trees); non-trivial = >= 3 nodes and >= 1 source")
+                           "update(recursive=False) (sampled to 45 ops on big trees); in ~65% of the random cases 1-3 register_backend calls "
+                           "(same scheme -> another of 5 recording classes, or a scheme registered for the first time) are "
+                           "interleaved and earlier operations repeated after them, so the same source URLs are resolved again; "
+                           "the initial registry is re-established at the start of every case; non-trivial = >= 3 nodes and >= 1 source")
 
 
 def replay(path):
